@@ -146,7 +146,13 @@ impl Monitor for C18 {
                 let single = rng.chance(1, 5);
                 let nagg = if single { 1 } else { 4 + rng.below(5) };
                 for i in 0..nagg {
-                    let a = match rng.below(9) {
+                    // (9-11: arguments whose values have different types from row to row - whatever an aggregate makes of them,
+                    // a value or an error, and whichever of several such aggregates reports first, is the same in every run)
+                    let mixed = |rng: &mut Rng, int_first: bool| { let (i, t) = (col(*rng.pick(&ints)), col(*rng.pick(&texts))); E::Case(vec![(bin(">=", col(*rng.pick(&ints)), int(rng.range(0, 12))), if int_first { i.clone() } else { t.clone() })], b(if int_first { t } else { i })) };
+                    let a = match rng.below(12) {
+                        9 => E::Agg("array_agg".into(), false, vec![mixed(rng, true)]),
+                        10 => E::Agg("array_agg".into(), false, vec![mixed(rng, false)]),
+                        11 => E::Agg(rng.pick(&["min", "max", "sum"]).to_string(), false, vec![{ let f = rng.chance(1, 2); mixed(rng, f) }]),
                         0 => E::Agg("count".into(), false, vec![E::Star]),
                         1 => E::Agg("count".into(), true, vec![col(*rng.pick(&ints))]),
                         2 => E::Agg("sum".into(), false, vec![col(*rng.pick(&ints))]),
